@@ -11,6 +11,16 @@ use std::panic::{catch_unwind, AssertUnwindSafe};
 type Set = HashSet<K, HB>;
 const NS: usize = 3;
 
+/// in the parset family every algebra operation and predicate runs as its rayon variant, on a
+/// thread pool of 1..16 workers
+fn par_choice(cx: &mut SCtx) -> Option<usize> {
+    if cx.par {
+        Some(cx.rng.below(6) as usize)
+    } else {
+        None
+    }
+}
+
 pub struct SCtx {
     pub sets: Vec<Option<Set>>,
     pub refs: Vec<BTreeMap<u64, u64>>, // class -> key object id
@@ -25,6 +35,7 @@ pub struct SCtx {
     pub tab_allocs: u64,
     pub tab_frees: u64,
     pub abort: bool,
+    pub par: bool,
 }
 
 impl SCtx {
@@ -358,12 +369,27 @@ fn sorted_kids<'a>(it: impl Iterator<Item = &'a K>) -> Vec<(u64, u64, u64)> {
     v
 }
 /// difference (0), symmetric_difference (1), intersection (2), union (3); 4..7 the operator forms
-fn op_alg(cx: &mut SCtx, kind: u64, a: usize, b: usize) {
-    let toks = format!("setalg {} {} {}", kind, a, b);
+fn op_alg(cx: &mut SCtx, kind: u64, a: usize, b: usize, par: Option<usize>) {
+    // the rayon variants are kinds 8-11 of the model (they choose their operands differently)
+    let par = if kind < 4 { par } else { None };
+    let toks = format!("setalg {} {} {}", if par.is_some() { kind + 8 } else { kind }, a, b);
     let slots: Vec<usize> = if a == b { vec![a] } else { vec![a, b] };
     let out = run(cx, toks.clone(), ["difference", "symmetric_difference", "intersection", "union", "sub", "bitxor", "bitand", "bitor"][kind as usize], &slots, None, |cx| {
         let sa = cx.sets[a].as_ref().unwrap();
         let sb = cx.sets[b].as_ref().unwrap();
+        #[cfg(feature = "par")]
+        if let (Some(p), true) = (par, kind < 4) {
+            use rayon::prelude::*;
+            let mut v: Vec<(u64, u64, u64)> = crate::par::pool(p).install(|| match kind {
+                0 => sa.par_difference(sb).map(|k| (k.class, k.id, 0)).collect(),
+                1 => sa.par_symmetric_difference(sb).map(|k| (k.class, k.id, 0)).collect(),
+                2 => sa.par_intersection(sb).map(|k| (k.class, k.id, 0)).collect(),
+                _ => sa.par_union(sb).map(|k| (k.class, k.id, 0)).collect(),
+            });
+            v.sort();
+            return Out::L(v);
+        }
+        let _ = par;
         let l = match kind {
             0 => sorted_kids(sa.difference(sb)),
             1 => sorted_kids(sa.symmetric_difference(sb)),
@@ -412,12 +438,22 @@ fn op_alg(cx: &mut SCtx, kind: u64, a: usize, b: usize) {
     }
 }
 /// is_disjoint (0), is_subset (1), is_superset (2), == (3)
-fn op_pred(cx: &mut SCtx, kind: u64, a: usize, b: usize) {
-    let toks = format!("setpred {} {} {}", kind, a, b);
+fn op_pred(cx: &mut SCtx, kind: u64, a: usize, b: usize, par: Option<usize>) {
+    let toks = format!("setpred {} {} {}", if par.is_some() { kind + 4 } else { kind }, a, b);
     let slots: Vec<usize> = if a == b { vec![a] } else { vec![a, b] };
     let out = run(cx, toks.clone(), ["is_disjoint", "is_subset", "is_superset", "eq"][kind as usize], &slots, None, |cx| {
         let sa = cx.sets[a].as_ref().unwrap();
         let sb = cx.sets[b].as_ref().unwrap();
+        #[cfg(feature = "par")]
+        if let Some(p) = par {
+            return Out::B(crate::par::pool(p).install(|| match kind {
+                0 => sa.par_is_disjoint(sb),
+                1 => sa.par_is_subset(sb),
+                2 => sa.par_is_superset(sb),
+                _ => sa.par_eq(sb),
+            }));
+        }
+        let _ = par;
         Out::B(match kind {
             0 => sa.is_disjoint(sb),
             1 => sa.is_subset(sb),
@@ -521,12 +557,14 @@ pub fn history(cx: &mut SCtx, maxops: u64) {
             68..=89 => {
                 let kind = cx.rng.below(8);
                 let b = cx.rng.below(NS as u64) as usize;
-                op_alg(cx, kind, s, b)
+                let p = par_choice(cx);
+                op_alg(cx, kind, s, b, p)
             }
             _ => {
                 let kind = cx.rng.below(4);
                 let b = cx.rng.below(NS as u64) as usize;
-                op_pred(cx, kind, s, b)
+                let p = par_choice(cx);
+                op_pred(cx, kind, s, b, p)
             }
         }
     }
@@ -535,10 +573,12 @@ pub fn history(cx: &mut SCtx, maxops: u64) {
         for a in 0..NS {
             for b in 0..NS {
                 for kind in 0..8 {
-                    op_alg(cx, kind, a, b);
+                    let p = par_choice(cx);
+                    op_alg(cx, kind, a, b, p);
                 }
                 for kind in 0..4 {
-                    op_pred(cx, kind, a, b);
+                    let p = par_choice(cx);
+                    op_pred(cx, kind, a, b, p);
                 }
             }
         }
